@@ -62,7 +62,8 @@ def entry(draw, afi, safi, addpath, small_universe=None):
 
 
 def entry_key(e):
-    return (e['prefix'], e.get('path_id'), tuple(e.get('labels', ())), e.get('rd'))
+    # the label stack is not part of a route's identity (RFC 8277 2.4)
+    return (e['prefix'], e.get('path_id'), e.get('rd'))
 
 
 @st.composite
@@ -91,6 +92,17 @@ def updates(draw, session=None, mp_only_ip=True):
     s = session or draw(sessions())
     fams = [tuple(f) for f in s['families']]
     desc = {'session': s, 'withdrawn': [], 'nlri': [], 'attrs': []}
+    if draw(st.integers(0, 19)) == 0:
+        # a valid UPDATE that carries attributes but no route at all (not an End-of-RIB: the attribute block is not empty)
+        kind = draw(st.sampled_from(['unknown-nt', 'unknown-t', 'origin']))
+        if kind == 'unknown-nt':
+            desc['attrs'] = [{'code': 0x64, 'flags': 0x80, 'v': draw(st.binary(max_size=6)).hex()}]
+        elif kind == 'unknown-t':
+            desc['attrs'] = [{'code': 0x63, 'flags': 0xC0, 'v': draw(st.binary(max_size=6)).hex()}]
+        else:
+            desc['attrs'] = [{'code': 1, 'flags': 0x40, 'v': 0}, {'code': 2, 'flags': 0x40, 'v': []}]
+        desc['order'] = 'attributes-only'
+        return desc
     announces_v4 = (1, 1) in fams and draw(st.booleans())
     if (1, 1) in fams and draw(st.integers(0, 3)) == 0:
         desc['withdrawn'] = draw(st.lists(entry(1, 1, has_ap(s, 1, 1)), min_size=1, max_size=5, unique_by=entry_key))
@@ -110,6 +122,15 @@ def updates(draw, session=None, mp_only_ip=True):
     if mp_fams and draw(st.integers(0, 2)) == 0:
         afi, safi = draw(st.sampled_from(mp_fams))
         unreach = {'afi': afi, 'safi': safi, 'entries': draw(st.lists(entry(afi, safi, has_ap(s, afi, safi)), min_size=1, max_size=6, unique_by=entry_key))}
+    # a prefix announced and withdrawn through *different* fields of one UPDATE has no RFC-defined reading: never generated
+    ann = {(1, 1) + entry_key(e) for e in desc['nlri']} | ({(reach['afi'], reach['safi']) + entry_key(e) for e in reach['entries']} if reach else set())
+    if unreach:
+        unreach['entries'] = [e for e in unreach['entries'] if (unreach['afi'], unreach['safi']) + entry_key(e) not in ann]
+        if not unreach['entries']:
+            unreach = None
+    if reach and (reach['afi'], reach['safi']) == (1, 1):
+        keep = {(1, 1) + entry_key(e) for e in reach['entries']}
+        desc['withdrawn'] = [e for e in desc['withdrawn'] if (1, 1) + entry_key(e) not in keep]
     announcing = bool(desc['nlri'] or reach)
     attrs = []
     if announcing:
